@@ -496,6 +496,17 @@ len([q for q in rows]) > 0 and q
 (len([w.item for w in orders]) > 0) and w.item
 "%s" % (len([z for z in rows]) and z)
 [e for e in []] or e
+regex("NETFLIX")
+regex(field.memo, "import")
+"%s" % regex("NET")
+regex("NET") if true else 0
+[regex("N") for r in rows]
+contains("NETFLIX") and regex("COM")
+extract("(NET)FLIX")
+normalized("NETFLIXCOM") or fuzzy("NETFLIX")
+anyof("ZZZ", "NETFLIX")
+startswith("NET")
+exists(field.memo)
 '''.strip().splitlines()
 
 VIEW_PAYLOADS = r'''
